@@ -12,7 +12,7 @@
  *  <P>.ids.table_bound   used' <= 65536 (loop/representation invariant)
  *  <P>.ids.count_fits    success => used' <= 65535: the number of ids fits
  *                        the 16 bit id_count field of the super block
- *  <P>.ids.refuse        the id that would be the 65536th is refused with
+ *  <P>.ids.refuse        (-DIDS_REFUSE, C01) the id that would be the 65536th is refused with
  *                        SQFS_ERROR_OVERFLOW and the table is unchanged
  */
 #include <stdlib.h>
@@ -22,9 +22,15 @@
 #endif
 size_t g_id_w;
 uint32_t g_id_wval;
+#ifdef VERIF_REPLAY
+#define __CPROVER_loop_invariant(...)
+#define __CPROVER_decreases(...)
+#endif
 #include "lib/sqfs/src/id_table.c"
 
+#ifndef CAP
 #define CAP 65537
+#endif
 
 static unsigned g_app_calls;
 static bool g_app_failed;
@@ -64,6 +70,9 @@ void harness(void)
 	size_t used0;
 	int ret;
 
+	/* --apply-loop-contracts leaves every global nondet: set the ghosts */
+	g_app_calls = 0;
+	g_app_failed = false;
 	tbl.base.refcount = 1;
 	tbl.ids.size = sizeof(sqfs_u32);
 	tbl.ids.count = CAP;
@@ -105,8 +114,10 @@ void harness(void)
 		VERIF_COVER(ret == SQFS_ERROR_OVERFLOW);
 		VERIF_COVER(ret == SQFS_ERROR_ALLOC);
 	}
+#ifdef IDS_REFUSE
 	/* an id not in a table of 65535 entries cannot be represented */
 	if (used0 >= 0xFFFF && g_app_calls + (ret == SQFS_ERROR_OVERFLOW) > 0)
 		VERIF_ASSERT(ret == SQFS_ERROR_OVERFLOW && g_app_calls == 0 &&
 			     out == out0, P ".ids.refuse");
+#endif
 }
